@@ -897,4 +897,51 @@ pub mod verif_hooks {
             .map(|i| buffer.info[i].arabic_shaping_action())
             .collect()
     }
+
+    /// Runs the real `arabic_joining` on a bare buffer whose context ARRAYS and context LENGTHS are set
+    /// separately: all `CONTEXT_LENGTH` slots of both sides are written as given (missing slots NUL), then
+    /// `context_len` is set to the given lengths (capped to the array size) — i.e. a buffer whose context was
+    /// set several times, with whatever earlier calls left behind the length.  Returns the per-item action.
+    pub fn joining_raw(
+        pre_slots: &[char],
+        pre_len: usize,
+        text: &[char],
+        post_slots: &[char],
+        post_len: usize,
+    ) -> Vec<u8> {
+        let mut buffer = bare_buffer("", text, "");
+        let n = buffer.context[0].len();
+        for i in 0..n {
+            buffer.context[0][i] = pre_slots.get(i).copied().unwrap_or('\0');
+            buffer.context[1][i] = post_slots.get(i).copied().unwrap_or('\0');
+        }
+        buffer.context_len = [core::cmp::min(pre_len, n), core::cmp::min(post_len, n)];
+        arabic_joining(&mut buffer);
+        (0..buffer.len)
+            .map(|i| buffer.info[i].arabic_shaping_action())
+            .collect()
+    }
+
+    /// The context state after a SEQUENCE of public context calls on one `UnicodeBuffer` without a `clear()`:
+    /// call = (side 0 pre / 1 post / 2 `add` of one character, text).  Returns the raw arrays (all slots) and
+    /// the lengths of both sides.
+    pub fn context_after(calls: &[(u8, alloc::string::String)]) -> ([Vec<char>; 2], [usize; 2]) {
+        let mut ub = crate::UnicodeBuffer::new();
+        for (side, text) in calls {
+            match side {
+                0 => ub.set_pre_context(text),
+                1 => ub.set_post_context(text),
+                _ => {
+                    for c in text.chars() {
+                        ub.add(c, 0);
+                    }
+                }
+            }
+        }
+        let b = ub.0;
+        (
+            [b.context[0].to_vec(), b.context[1].to_vec()],
+            b.context_len,
+        )
+    }
 }
